@@ -28,8 +28,13 @@ InQ(x) == \E i \in 1..Len(q) : q[i] = x
 RECURSIVE SumDem(_)
 SumDem(s) == IF s = {} THEN 0 ELSE LET x == CHOOSE y \in s : TRUE IN dem[x] + SumDem(s \ {x})
 Unpromised == count - SumDem(woken)
-NoCoveredWaiter == IF ooo THEN \A i \in 1..Len(q) : dem[q[i]] > Unpromised
-                          ELSE (IF q = <<>> THEN TRUE ELSE dem[Head(q)] > Unpromised)
+\* A queued waiter whose deadline is up is being taken out by its own vCPU's expiry pass (which holds the thread lock, so
+\* signal()'s scan has to pass over it): it returns ETIMEDOUT and takes nothing, which the property allows -- it does not stay
+\* blocked.  Recognised by looking ahead in the trace: the next claim of that thread is an expiry, not a resume / interrupt.
+NextClaims(t) == {k \in (l + 1)..Len(Tr) : Tr[k].e \in {"hExpire", "hIntr"} /\ Tr[k].t = t}
+AboutToExpire(t) == NextClaims(t) # {} /\ Tr[CHOOSE k \in NextClaims(t) : \A j \in NextClaims(t) : k <= j].e = "hExpire"
+NoCoveredWaiter == IF ooo THEN \A i \in 1..Len(q) : dem[q[i]] > Unpromised \/ AboutToExpire(q[i])
+                          ELSE (IF q = <<>> THEN TRUE ELSE dem[Head(q)] > Unpromised \/ AboutToExpire(Head(q)))
 Reset == Ev("Reset") /\ count' = R.init /\ q' = <<>> /\ dem' = [t \in T |-> 0] /\ want' = [t \in T |-> 0] /\ woken' = {} /\ ooo' = R.ooo
 Inv == /\ Ev("Inv")
        /\ want' = IF R.op \in {"wait", "waiti"} THEN [want EXCEPT ![R.t] = R.n] ELSE want
